@@ -12,7 +12,8 @@ open Conv
 open Mlevel_cmd
 
 (* The repairs routes_{implies_cumulative,felement_bounds,prepare_validation_errors} are in /repo (fix commits a88ba19,
-   b9ad7d3, 596c327): the model of the repaired tree (call_fixed / rbuild_fixed of coq/Model/Routes.v) is the default;
+   b9ad7d3, 596c327), and so are e45322d (length-mismatched lin_*_reif post equals(b, 0)) and e2596cd (Model::table drops
+   malformed tuples and records a validation error): the model of the repaired tree (call_fixed / rbuild_fixed of coq/Model/Routes.v) is the default;
    SELEN_ROUTES_PREFIX=1 selects the model of the tree before them (used for the refutation witnesses only). *)
 let fixed_mode = not (try Sys.getenv "SELEN_ROUTES_PREFIX" = "1" with Not_found -> false)
 let rbuild prog = if fixed_mode then rbuild_fixed prog else rbuild prog
@@ -186,6 +187,9 @@ let rmodel_part (c : rcase) : string =
   let m = rbuild c.rprog in
   if m.rpanic then "PANIC"
   else if m.rcallerr then "callerr InvalidInput"
+  (* a recorded posting-time error is returned before anything is lowered (596c327; solve / minimize / maximize
+     always checked it first) *)
+  else if m.rverr && (fixed_mode || c.rentry <> ["enum"]) then (if c.rentry = ["enum"] then "sols -" else "err InvalidConstraint")
   else match rlower m with
     | RLPanic -> "PANIC"
     | RLOk (s, ps) ->
@@ -222,7 +226,7 @@ let rknown_class (prog : rstmt list) : string =
   let m = ref rs0 in
   List.iter (fun s ->
     (match s with
-     | SCall (RTable (xs, ts)) when not (table_okb xs ts) -> set "table_arity_panic"
+     | SCall (RTable (xs, ts)) when not fixed_mode && not (table_okb xs ts) -> set "table_arity_panic"   (* repaired by e2596cd *)
      | SCall r0 ->
        let r = rn_route (ruv !m) r0 in
        let st = fst (!m).rst in
@@ -231,7 +235,7 @@ let rknown_class (prog : rstmt list) : string =
        if kf_mod_zero_div r st then set "mod_zero_div";
        if kf_const_const r then set "const_const";
        if kf_felement_bounds r st then set "felement_bounds";
-       if kf_linreif_len r then set "linreif_len";
+       if not fixed_mode && kf_linreif_len r then set "linreif_len";   (* repaired by e45322d *)
        if kf_linreif_zero r then set "lin_zero_coeffs";
        if kf_gcc_len r then set "gcc_len";
        if kf_nonbool_arg r st then set "nonbool_arg"
@@ -251,7 +255,6 @@ let rknown_class (prog : rstmt list) : string =
     if m.rpanic || lowered = RLPanic then "BAD:empty_domain_panic "
     else if (match lowered with RLOk (s, ps) -> rvalidate s ps = Some VInvalidDomain && (aux_oversize s || not (List.exists (fun d -> d = []) s)) | RLPanic -> false) then "BAD:oversize_domain "
     else if List.exists (fun c -> kf_or_not (fold_cons c)) cs then "BAD:or_not "
-    else if List.exists kf_nested_ne cs then "BAD:nested_ne "
     else if low_has (function PB (PLinEq (c, x, _)) | PB (PLinLe (c, x, _)) -> all_zero c x | _ -> false) then "BAD:lin_zero_coeffs "
     else if low_has (function PB (PMod (_, _, _)) -> (match lowered with RLOk (s, ps) -> rvalidate s ps = Some VInvalidConstraint | _ -> false) | _ -> false) then "BAD:mod_rejected "
     else ""
@@ -263,7 +266,7 @@ let run_rsolve (line : string) : string =
   let mp = rmodel_part c in
   (* the reified linear routes index coefficients by variable position: with fewer coefficients than
      variables the propagator panics once enough variables are fixed — not predicted here *)
-  let withheld = List.exists (function SCall r -> kf_linreif_len r | _ -> false) c.rprog in
+  let withheld = not fixed_mode && List.exists (function SCall r -> kf_linreif_len r | _ -> false) c.rprog in
   let mp = if withheld then "-" else mp in
   if m.rpanic then mp ^ " ||| " ^ rknown_class c.rprog ^ "all -"
   else if m.rcallerr then mp ^ " ||| expcallerr"
